@@ -337,12 +337,12 @@ pub fn copy(h: u32, write: bool, fut: bool, ptr: usize, n: usize) -> u32 {
             let x = with_chan(c, |x| x.clone());
             if x.guest_writes != write || x.fut != fut {
                 trap_code(Some(c), "copy-wrong-end")
+            } else if { watch_read_slab(&x, write, ptr, n); false } {
+                unreachable!()
             } else if x.state == St::Copying {
                 trap_code(Some(c), "copy-while-copying")
             } else if x.state == St::Done {
                 trap_code(Some(c), "copy-after-done")
-            } else if { watch_read_slab(&x, write, ptr, n); false } {
-                unreachable!()
             } else if x.peer_ready > 0 {
                 // the peer has an operation pending: rendezvous now
                 let k = n.min(x.peer_ready);
